@@ -88,7 +88,10 @@ def check_case(exprs, inp, seg, cer, via, pv=0):
     out = []
     roles = {"FU?".index(st): k for k, st in zip(("1", "2", "3"), H.PERMS[cer])}
     rk = {"f": roles[0], "u": roles[1], "q": roles[2]}
-    entries = [{"q": QUALS[i] if i < len(QUALS) else f"Q{i}", "expr": e.format(**rk)} for i, e in enumerate(exprs)]
+    # the meaning of a qualifier is free text: '' for every second entry
+    entries = [{"q": QUALS[i] if i < len(QUALS) else f"Q{i}", "expr": e.format(**rk),
+                "meaning": "" if (i + len(exprs)) % 2 else "Bedeutung " + (QUALS[i] if i < len(QUALS) else f"Q{i}")} for i, e in enumerate(exprs)]
+    meaning_of = {e["q"]: e["meaning"] for e in entries}
     pool = {"kind": "pool", "id": "DE", "input": inp, "entries": entries}
     seg_status, seg_expr = SEGMENTS[seg]
     seg_expr = seg_expr.format(**rk)
@@ -147,8 +150,8 @@ def check_case(exprs, inp, seg, cer, via, pv=0):
         kind = "offered-values/order" if sorted(o["offered"] or []) == sorted(exp_off) else "offered-values"
         v(kind, exp_off, o["offered"])
         return out
-    if (o["meanings"] or {}) != {q: "Bedeutung " + q for q in exp_off}:
-        v("offered-values/meaning", {q: "Bedeutung " + q for q in exp_off}, o["meanings"])
+    if (o["meanings"] or {}) != {q: meaning_of[q] for q in exp_off}:
+        v("offered-values/meaning", {q: meaning_of[q] for q in exp_off}, o["meanings"])
         return out
     if not exp_off:
         if o["status"] != "IS_FORBIDDEN":
